@@ -3,7 +3,7 @@
    A message is seen as what subset() looks at: the value of the n_subsets proxy
    and the list of sections, each a list of parameters.  A parameter is either
    the template data (its decoded_values_all_subsets: one entry per subset) or
-   any other parameter (name, value).  Parameter values V and per-subset value
+   any other parameter (name, value).  The values V of plain parameters and per-subset value
    lists S are opaque: subset() only moves them around.
 
    Modelled as coded: max()/min() guards (ValueError on an empty collection,
